@@ -53,3 +53,17 @@ func TestRunFindingA1IxorBitmapMutatesArgument(t *testing.T) {
 		t.Errorf("rc.ixor(bitmap): argument cardinality %d -> %d, result is the argument object: %v (receiver cardinality still %d)", before, after, res == container(bc), rc.getCardinality())
 	}
 }
+
+// F6 (NEW, public witness): runContainer16.not returns rc.Not(...) without toEfficientContainer: the static Flip of a run-optimised
+// bitmap can hold a run chunk that violates the size rule, so the library-made bitmap fails its own Validate() (same class as A-13/A-20)
+func TestRunFindingF6StaticFlipNotNormalised(t *testing.T) {
+	a := BitmapOf(0, 1, 2, 3)
+	a.RunOptimize()
+	if _, ok := a.highlowcontainer.containers[0].(*runContainer16); !ok {
+		t.Skip("precondition: chunk is a run container")
+	}
+	b := Flip(a, 1, 2)
+	if err := b.Validate(); err != nil {
+		t.Errorf("Flip(run{0..3}, 1, 2) = %v held in %T: Validate() = %v", b.ToArray(), b.highlowcontainer.containers[0], err)
+	}
+}
